@@ -76,7 +76,11 @@ func c14One(c *vf.Ctx, sub string, i int, r *rand.Rand, ids []Ident) {
 	}
 	delay := []int{0, 100, 400}[r.Intn(3)]
 	closeAtEnd := r.Intn(2) == 0
-	desc := fmt.Sprintf("publishers=%d rounds=%d listeners=%d tap-delay=%d/1000 close-with-stalled-readers=%v", npub, rounds, nlist, delay, closeAtEnd)
+	seg := int64(0)
+	if r.Intn(3) == 0 {
+		seg = int64(1 + r.Intn(2)) // segmented syncs: the count of a notification spans all segments
+	}
+	desc := fmt.Sprintf("publishers=%d rounds=%d listeners=%d tap-delay=%d/1000 close-with-stalled-readers=%v segment-depth=%d", npub, rounds, nlist, delay, closeAtEnd, seg)
 	c.Cur(sub, i, desc)
 	pubs := make([]*c08Pub, npub)
 	byID := map[peer.ID]*c08Pub{}
@@ -102,11 +106,17 @@ func c14One(c *vf.Ctx, sub string, i int, r *rand.Rand, ids []Ident) {
 	defer tl.uninstall()
 	dst := NewStore()
 	var hookCount sync.Map // goroutine id -> *atomic.Int64 (hooks since its last sync.enter)
-	hook := func(p peer.ID, cd cid.Cid, _ dagsync.SegmentSyncActions) {
+	prevHook := adPrevHook(dst, &hookLog{})
+	hook := func(p peer.ID, cd cid.Cid, act dagsync.SegmentSyncActions) {
 		v, _ := hookCount.LoadOrStore(goroutineID(), new(atomic.Int64))
 		v.(*atomic.Int64).Add(1)
+		prevHook(p, cd, act) // tells a segmented sync where to continue
 	}
-	s, err := newSubscriber(dst, dagsync.RecvAnnounce(""), dagsync.BlockHook(hook))
+	sopts := []dagsync.Option{dagsync.RecvAnnounce(""), dagsync.BlockHook(hook)}
+	if seg > 0 {
+		sopts = append(sopts, dagsync.SegmentDepthLimit(seg))
+	}
+	s, err := newSubscriber(dst, sopts...)
 	if err != nil {
 		c.Fail(sub, i, "harness-subscriber", err.Error(), nil)
 		return
@@ -114,15 +124,21 @@ func c14One(c *vf.Ctx, sub string, i int, r *rand.Rand, ids []Ident) {
 	// expected Count of each emission: hooks seen by the syncing goroutine between sync.enter and sync.exit
 	var cmu sync.Mutex
 	counts := map[string]int{} // peer|cid -> hook count of the sync that emitted it
+	var enterCid sync.Map      // goroutine id -> head cid seen at sync.enter
 	tl.onPoint = func(point string, p peer.ID, cd cid.Cid) cid.Cid {
 		switch point {
 		case "sync.enter":
 			v, _ := hookCount.LoadOrStore(goroutineID(), new(atomic.Int64))
 			v.(*atomic.Int64).Store(0)
+			enterCid.Store(goroutineID(), cd) // the head being synced (sync.exit reports the last segment's root)
 		case "sync.exit":
 			if v, ok := hookCount.Load(goroutineID()); ok {
+				head := cd
+				if h, ok := enterCid.Load(goroutineID()); ok {
+					head = h.(cid.Cid)
+				}
 				cmu.Lock()
-				counts[string(p)+"|"+cd.String()] = int(v.(*atomic.Int64).Load())
+				counts[string(p)+"|"+head.String()] = int(v.(*atomic.Int64).Load())
 				cmu.Unlock()
 			}
 		}
@@ -172,7 +188,7 @@ func c14One(c *vf.Ctx, sub string, i int, r *rand.Rand, ids []Ident) {
 			defer wg.Done()
 			for rd := 0; rd < rounds; rd++ {
 				p.mu.Lock()
-				_ = ExtendChain(rr, p.st, p.chain, 1+rr.Intn(2), p.id.ID)
+				_ = ExtendChain(rr, p.st, p.chain, 1+rr.Intn(3), p.id.ID)
 				h := p.chain.Head()
 				p.front.Pub.SetRoot(h)
 				p.mu.Unlock()
@@ -355,7 +371,6 @@ func c14One(c *vf.Ctx, sub string, i int, r *rand.Rand, ids []Ident) {
 				cmu.Unlock()
 				if ok && want != g.Count {
 					c.Fail(sub, i, "notification-count-differs", fmt.Sprintf("listener %d: count %d, the sync reported %d blocks", l.id, g.Count, want), lw())
-					break
 				}
 			}
 			// must not have been forwarded before the registration call even started
@@ -390,6 +405,9 @@ func c14One(c *vf.Ctx, sub string, i int, r *rand.Rand, ids []Ident) {
 		c.Inc("listener_" + l.behaviour)
 	}
 	c.Eval(1)
+	if seg > 0 {
+		c.Inc("runs_with_segmented_syncs")
+	}
 	c.Add("emitted_events", int64(len(emits)))
 	if many {
 		c.Inc("long_runs_with_stalled_listener")
